@@ -154,6 +154,27 @@ def check_basic_uniqueness(ctx, P):
             for atom, pol in G.path_literals(ev, e, P, checks_only=True):
                 if any(x.op == "call" and B.cname(x) in SET_INSERTS for x in subterms(atom[2])):
                     controls = True
+        if not controls:
+            # look-up first, insert afterwards: `if let Some(old) = seen.get(&m) { return Err(..) } seen.insert(m, i);` -
+            # a look-up of the same key in the same map dominates the insert and its "present" outcome leaves through Err
+            recv = lambda t: B.show_nf(B.nf(ev, t)) if False else show(strip_sites(B.peel(t)), 6)
+            for lb, ls in sorted(ev.sites.items()):
+                nm = ls.callee[0]
+                if nm.split("::")[-1] not in ("get", "contains_key", "contains", "get_key_value") or nm.split("::")[0].split("<")[0] not in ("HashMap", "HashSet", "BTreeMap", "BTreeSet") or len(ls.args) != 2:
+                    continue
+                if not cfg.dominates(lb, b) or B.show_nf(B.nf(ev, ls.args[1])) != B.show_nf(key_nf):
+                    continue
+                same_map = strip_sites(B.peel(ls.args[0])) == strip_sites(B.peel(s.args[0])) or recv(ls.args[0]) == recv(s.args[0])
+                if not same_map:
+                    continue
+                lv = strip_sites(ls.value)
+                for e in errs:
+                    for atom, pol in G.path_literals(ev, e, P, checks_only=True):
+                        if not (len(atom) > 2 and hasattr(atom[2], "op") and any(x == lv for x in subterms(strip_sites(atom[2])))):
+                            continue
+                        present = (atom[1] == "term" and pol) or (atom[1] == "switch" and ((atom[3] == 1 and pol) or (atom[3] == 0 and not pol))) or (atom[1] == "switch_not" and pol and tuple(atom[3]) == (0,)) or (atom[1] == "is_some" and pol)
+                        if present:
+                            controls = True
         srcs = [R.covers_all(sr, "pks") for _, sr in R.loop_sources(f)]
         ctx.ob("E4.unique", fk + "/insert", from_elem and every and controls and srcs == ["all"], "uniqueness by %s: key from the entry=%s, executed every iteration=%s, outcome controls an Err exit=%s, loop covers %s; key = %s" % (s.callee[0], from_elem, every, controls, srcs, B.show_nf(key_nf)), where=where(f, b), sample={"key": B.show_nf(key_nf)})
         # the key is the message alone (not the public key, not the index)
